@@ -101,7 +101,9 @@ func (m *Mutex) Unlock() {
 	x := inThread()
 	if x != nil {
 		m.sync(x)
-		x.point(nil, "Mutex.Unlock", opUnlock+uint64(m.reg.id)<<8)
+		if x.quiet&QuietUnlock == 0 {
+			x.point(nil, "Mutex.Unlock", opUnlock+uint64(m.reg.id)<<8)
+		}
 	} else if c := schedCur; c != nil {
 		m.sync(c)
 	}
@@ -159,7 +161,7 @@ func (m *RWMutex) Lock() {
 }
 
 func (m *RWMutex) Unlock() {
-	if x := m.enter(); x != nil {
+	if x := m.enter(); x != nil && x.quiet&QuietUnlock == 0 {
 		x.point(nil, "RWMutex.Unlock", opUnlock+uint64(m.reg.id)<<8)
 	}
 	if !m.writer {
@@ -181,7 +183,7 @@ func (m *RWMutex) RLock() {
 }
 
 func (m *RWMutex) RUnlock() {
-	if x := m.enter(); x != nil {
+	if x := m.enter(); x != nil && x.quiet&QuietUnlock == 0 {
 		x.point(nil, "RWMutex.RUnlock", opRUnlock+uint64(m.reg.id)<<8)
 	}
 	if m.readers <= 0 {
@@ -373,8 +375,7 @@ func (w *WaitGroup) Go(f func()) {
 // Once replaces sync.Once.
 type Once struct {
 	reg     schedReg
-	state   int // 0 fresh, 1 running, 2 done
-	runner_ int
+	state int // 0 fresh, 1 running, 2 done
 }
 
 func (o *Once) schedState(b *strings.Builder) { fmt.Fprintf(b, "O%d", o.state) }
@@ -422,7 +423,7 @@ func (p *Pool) enter(what string) {
 	if c != nil && p.reg.register(c, p) {
 		p.free = nil
 	}
-	if x != nil {
+	if x != nil && x.quiet&QuietPool == 0 {
 		x.point(nil, what, opPool+uint64(p.reg.id)<<8)
 	}
 }
@@ -450,7 +451,7 @@ func (p *Pool) Put(v any) {
 // ---------------------------------------------------------------- atomics (scheduling points, sequentially consistent)
 
 func atomicPoint() {
-	if x := inThread(); x != nil {
+	if x := inThread(); x != nil && x.quiet&QuietAtomic == 0 {
 		x.point(nil, "atomic", opAtomic)
 	}
 }
